@@ -203,7 +203,8 @@ class Decode:
 
             self.acs[icao]["icao"] = icao
             self.acs[icao]["t"] = t
-            self.acs[icao]["live"] = int(t)
+            # a reply can be older than the ADS-B messages of the same chunk
+            self.acs[icao]["live"] = max(self.acs[icao]["live"], int(t))
 
             bds = pms.bds.infer(msg)
 
